@@ -50,6 +50,10 @@ CLAIMED['C16'] = dict(
    text='Solo-termination search over the real code: from prefixes of random schedules of small programs (other threads stopped mid-operation) one thread inside or about to start an operation documented lock-free runs alone and must return within 5000 of its own atomic steps; a thread that only re-reads unchanged locations is reported as waiting. Covers all queues, the chase deque, seqlock load (slots > 1), left_right read, Harris-Michael operations and iterators, vyukov_hash_map::try_get_value and guard acquire/reset/reclaim of the reclaimers. The Coq obligations of this property are still placeholders; the solo bounds over the proved invariants are work in progress.',
    note='Exploration, not a proof yet. SC interleavings only.',
    technique='solo-run search from explored prefixes (Coq solo-bound theorems pending)', design='5/C16', level='exploration')
+CLAIMED['C03'] = dict(
+   text='C++ memory model: (1) a Coq theorem over a table GENERATED on every run from the numbered synchronisation annotations of all xenium headers and the memory orders written at the annotated statements (227 sites): every site is at least as strong as its annotation, every declared pair is release-class -> acquire-class or seq_cst <-> seq_cst, production and TSan variant; (2) machine-checked theorems about the view-based weak-memory machine the exploration runs on (well-formedness, coherence, message passing through release/acquire, fences and release sequences, store buffering excluded only by seq_cst fences, SC executions included, litmus non-vacuity); (3) the deciding part for whole algorithms: the real code of every container and reclaimer runs under rt/xvrt in weak mode (stale reads within a window, views, C++11 release sequences) and in race mode (vector-clock happens-before over plain accesses), with the same oracles as the SC checks (conservation, happens-before-ordered linearizability, UAF/double free, torn values, livelock).',
+   note='Exploration decides the algorithm-level claim; the theorems cover the annotated contract and the machine. Weak executions explored: no load buffering, staleness window W=16 (quick) / 64 (thorough). Known finding C03-kfb-weak-lost-element.',
+   technique='Coq theorem over generated sync-annotation table + Coq theorems about the weak-memory machine; weak-memory / race exploration of the real code', design='5/C03', level='exploration')
 NOT_YET = {}
 props = [json.loads(l) for l in open(os.path.join(V, 'properties.jsonl'))]
 checks, na = [], []
